@@ -275,13 +275,42 @@ func c14Wiring(c *Ctx) {
 			via   string
 		}
 		var np *ssa.Call
+		// the arguments of NewPosition as values of Decode: identity, or - when the construction sits in a
+		// helper of the package - the helper's parameters replaced by what Decode calls it with
+		npArg := func(i int) ssa.Value { return np.Call.Args[i] }
 		{
 			v := returnedValue(okRet, 0)
 			if ex, ok := v.(*ssa.Extract); ok {
 				v = ex.Tuple
 			}
-			if call, ok := v.(*ssa.Call); ok && call.Call.StaticCallee() != nil && call.Call.StaticCallee().Name() == "NewPosition" {
+			npFn := c.find("pkg/board", "", "NewPosition")
+			if call, ok := v.(*ssa.Call); ok && call.Call.StaticCallee() != nil && call.Call.StaticCallee() == npFn {
 				np = call
+			} else if call, ok := v.(*ssa.Call); ok && call.Call.StaticCallee() != nil && call.Call.StaticCallee().Pkg == decode.Pkg && call.Call.StaticCallee().Blocks != nil {
+				h := call.Call.StaticCallee()
+				for _, hb := range h.Blocks {
+					ret, ok := hb.Instrs[len(hb.Instrs)-1].(*ssa.Return)
+					if !ok || len(ret.Results) == 0 {
+						continue
+					}
+					rv := returnedValue(ret, 0)
+					if ex, ok := rv.(*ssa.Extract); ok {
+						rv = ex.Tuple
+					}
+					if inner, ok := rv.(*ssa.Call); ok && inner.Call.StaticCallee() == npFn {
+						np = inner
+						outer := call
+						npArg = func(i int) ssa.Value {
+							a := stripConv(inner.Call.Args[i])
+							for k, p := range h.Params {
+								if ssa.Value(p) == a && k < len(outer.Call.Args) {
+									return outer.Call.Args[k]
+								}
+							}
+							return inner.Call.Args[i]
+						}
+					}
+				}
 			}
 		}
 		ws := []want{
@@ -290,7 +319,7 @@ func c14Wiring(c *Ctx) {
 			{"full-move number", returnedValue(okRet, 3), 5, "Atoi"},
 		}
 		if np != nil && len(np.Call.Args) == 3 {
-			ws = append(ws, want{"castling rights", np.Call.Args[1], 2, c.roleName("pkg/board/fen", "", "parseCastling")}, want{"e.p. square", np.Call.Args[2], 3, "ParseSquareStr"})
+			ws = append(ws, want{"castling rights", npArg(1), 2, c.roleName("pkg/board/fen", "", "parseCastling")}, want{"e.p. square", npArg(2), 3, "ParseSquareStr"})
 		}
 		var bad []string
 		for _, w := range ws {
